@@ -471,6 +471,13 @@ class AverageBlockCollection(BlockCollection):
         refB = b
         refFlags = cFlags[refB]
         for b, compFlags in cFlags.items():
+            if len(compFlags) != len(refFlags):
+                runLog.warning(
+                    "Non-matching block in AverageBlockCollection!\n"
+                    f"{b} has {len(compFlags)} components but {refB} has {len(refFlags)}.\n"
+                    f"Number densities will be smeared in representative block."
+                )
+                return False
             for c, refC in zip(compFlags, refFlags):
                 if c != refC:
                     runLog.warning(
